@@ -67,6 +67,14 @@ func KitchenSink() []*Doc {
 		d.Paths["/pets/mine"] = &PathItem{Get: &Operation{Security: &[]map[string][]string{{"bearer": {}}}, Responses: map[string]*Response{"200": {Description: Str("ok"), Content: JSONContent(&Schema{Type: "array", Items: str})}}}}
 		d.Paths["/"] = &PathItem{Get: MinimalOp()}
 		d.Paths["/files/"] = &PathItem{Get: MinimalOp()}
+		// open objects as whole bodies: declared required + optional properties beside
+		// additionalProperties (true / typed)
+		d.Components.Schemas["Labels"] = &Schema{Type: "object", Properties: map[string]*Schema{"name": {Type: "string"}, "tag": {Type: "string"}, "note": {Type: "string", Nullable: true}}, Required: []string{"name"}, AdditionalProperties: &AddProps{Bool: Bool(true)}}
+		d.Components.Schemas["Counters"] = &Schema{Type: "object", Properties: map[string]*Schema{"unit": {Type: "string"}, "scale": {Type: "integer"}}, AdditionalProperties: &AddProps{Schema: &Schema{Type: "integer"}}}
+		d.Paths["/labels"] = &PathItem{
+			Put:  &Operation{RequestBody: &RequestBody{Required: true, Content: JSONContent(&Schema{Ref: RefSchemas + "Labels"})}, Responses: map[string]*Response{"200": {Description: Str("ok"), Content: JSONContent(&Schema{Ref: RefSchemas + "Labels"})}}},
+			Post: &Operation{RequestBody: &RequestBody{Content: JSONContent(&Schema{Ref: RefSchemas + "Counters"})}, Responses: map[string]*Response{"200": {Description: Str("ok"), Content: JSONContent(&Schema{Ref: RefSchemas + "Counters"})}}},
+		}
 		out = append(out, d)
 	}
 	return out
